@@ -70,6 +70,7 @@ def src_limits():
     # spellings of dialect names that are NOT in the table (only the exact name selects a dialect)
     for k, nm in enumerate(["en_au", "zh_CN", "sr_Latn", "EN", "en-AU", "en_", "fr-", "en-lol ", "e n"]):
         out.append((f"unknown-dialect:{k}", f"# language: {nm}\nFeature: f\n  Scenario: s\n    Given x\n", "en"))
+        out.append((f"unknown-dialect-indented:{k}", " " * (k + 1) + f"# language: {nm}\n\t# language: xx\nFeature: f\n  Scenario: s\n    Given x\n", "en"))
     # documents that leave a matcher in every non-initial state, each followed by ordinary ones (for re-use passes)
     for k, s in enumerate(["Feature: q\n  Scenario: s\n    Given x\n      \"\"\"\n      open\n", "Feature: ok\n  Scenario: s\n    Given x\n      ```\n      c\n      ```\n    And y\n      \"\"\"\n      d\n      \"\"\"\n",
                            "Feature: b\n  Scenario: s\n    Given x\n        ```\n     open\n", "Feature: i\n    indented description\n  Scenario: s\n    Given x\n      \"\"\"\n      d\n      \"\"\"\n",
@@ -111,6 +112,25 @@ def traces(rep: Reporter, recs: list[dict], label: str, batch: int = 1500) -> No
                         "pickles": len(r0["pickles"])})
 
 
+def replay_owners(m) -> set[str]:
+    """Which properties own the disagreement(s) of one replayed behaviour (all differing fields count)."""
+    own: set[str] = set()
+    for f in m["fields"]:
+        if f == "exception":
+            own |= {"C01"}
+        elif f == "errs":
+            own |= AT.owners_errors(m["spec"]["errs"], m["impl"]["errs"]) | {"C01"}
+        elif f == "ndeliv":
+            own |= {"C18"}
+        elif f == "nid":
+            own |= {"C11"}
+        elif f == "ast":
+            own |= ({"C01", "C14", "C02"} if len(m["spec"]["ast"]) != len(m["impl"]["ast"]) else AT.owners_ast(m["spec"]["ast"], m["impl"]["ast"]))
+        else:
+            own |= AT.owners_pickles(m["spec"]["pickles"], m["impl"]["pickles"])
+    return own
+
+
 # ------------------------------------------------------------------------------------------------ spec -> code
 def menu(rep: Reporter, menu_lines: list[str], n: int, mode: str = "collect", max_errs: int = 2, invariants: list[str] | None = None,
          label: str = "menu", prefix: list[int] | None = None) -> None:
@@ -128,23 +148,11 @@ def menu(rep: Reporter, menu_lines: list[str], n: int, mode: str = "collect", ma
         rep.case(tuple(b["input"]), nontrivial=len(b["input"]) > 0)
     rep.evaluations -= 0
     for m in mism:
-        f = m["field"]
-        if f == "exception":
-            own = {"C01"}
-        elif f == "errs":
-            own = AT.owners_errors(m["spec"]["errs"], m["impl"]["errs"]) | {"C01"}
-        elif f == "ndeliv":
-            own = {"C18"}
-        elif f == "nid":
-            own = {"C11"}
-        elif f == "ast":
-            own = ({"C01", "C14", "C02"} if len(m["spec"]["ast"]) != len(m["impl"]["ast"]) else AT.owners_ast(m["spec"]["ast"], m["impl"]["ast"]))
-        else:
-            own = AT.owners_pickles(m["spec"]["pickles"], m["impl"]["pickles"])
+        own = replay_owners(m)
         if prop in own or not own:
-            rep.violation({"kind": "replay:" + f}, {"engine": "menu", "what": f"replayed behaviour differs in {f}", "source": m["text"], "mode": mode,
-                                                    "exc": m["exc"], "spec": m["spec"][f] if f in m["spec"] else None,
-                                                    "impl": m["impl"][f] if f in m["impl"] else None})
+            f = next((x for x in m["fields"] if prop in replay_owners(dict(m, fields=[x]))), m["field"])
+            rep.violation({"kind": "replay:" + f}, {"engine": "menu", "what": f"replayed behaviour differs in {m['fields']}", "source": m["text"], "mode": mode,
+                                                    "exc": m["exc"], "spec": m["spec"].get(f), "impl": m["impl"].get(f)})
 
 
 def grow(rep: Reporter, menu_lines: list[str], starts, invariants: list[str] | None = None, label: str = "grow",
@@ -164,13 +172,12 @@ def grow(rep: Reporter, menu_lines: list[str], starts, invariants: list[str] | N
         rep.sample({"document": "".join(menu_lines[i - 1] for i in b["input"]), "pickles": len(b["pickles"]),
                     "pickle_steps": [len(p["steps"]) for p in b["pickles"]], "pickle_tags": [len(p["tags"]) for p in b["pickles"]]})
     for m in mism:
-        f = m["field"]
-        own = ({"C01"} if f == "exception" else {"C14", "C01"} if f == "errs" else {"C18"} if f == "ndeliv" else {"C11"} if f == "nid"
-               else ({"C01", "C14", "C02"} if len(m["spec"]["ast"]) != len(m["impl"]["ast"]) else AT.owners_ast(m["spec"]["ast"], m["impl"]["ast"])) if f == "ast"
-               else AT.owners_pickles(m["spec"]["pickles"], m["impl"]["pickles"]))
+        own = replay_owners(m)
         if prop in own or not own:
-            rep.violation({"kind": "replay:" + f}, {"engine": "grow", "what": f"replayed behaviour differs in {f}", "source": m["text"], "mode": "collect",
+            f = next((x for x in m["fields"] if prop in replay_owners(dict(m, fields=[x]))), m["field"])
+            rep.violation({"kind": "replay:" + f}, {"engine": "grow", "what": f"replayed behaviour differs in {m['fields']}", "source": m["text"], "mode": "collect",
                                                     "exc": m["exc"], "spec": m["spec"].get(f), "impl": m["impl"].get(f)})
+
 
 
 def layering(rep: Reporter, menu_lines: list[str], n: int, label: str = "layering") -> None:
